@@ -73,6 +73,13 @@ def fail_if(detector, level=0, **kwargs):
         raise ProbeError(f"probe failure at level {level}")
 
 
+def fail_at_step(detector, step=0, **kwargs):
+    """Fails at the readout step whose pipeline counter equals `step`."""
+    probe(detector, step=step, **kwargs)
+    if detector.pipeline_count == step:
+        raise ProbeError(f"probe failure at readout step {step}")
+
+
 def draws(detector, fail=False, **kwargs):
     """Probe that draws from the process-wide generator (seeding replays)."""
     import numpy as np
